@@ -22,15 +22,15 @@ def family (name : String) (seed idx : Nat) : Option Case :=
   match name with
   | "cmp1" => some (cmp1Case [31] idx)
   | "cmp1all" => some (cmp1Case ((List.range 31).map (· + 1)) idx)
-  | "cmpN" => some (genItemCase cfgCmp name seed idx)
-  | "cmpWild" => some (genItemCase cfgCmpWild name seed idx)
-  | "basic" => some (genItemCase cfgBasic name seed idx)
-  | "ops" => some (genItemCase cfgOps name seed idx)
-  | "bounds" => some (genItemCase cfgBounds name seed idx)
-  | "all" => some (genItemCase cfgAll name seed idx)
-  | "dump" => some (genItemCase cfgDump name seed idx)
-  | "wild" => some (genItemCase cfgWild name seed idx)
-  | "strip" => some (genItemCase cfgStrip name seed idx)
+  | "cmpN" => some (genItemCaseR cfgCmp name seed idx)
+  | "cmpWild" => some (genItemCaseR cfgCmpWild name seed idx)
+  | "basic" => some (genItemCaseR cfgBasic name seed idx)
+  | "ops" => some (genItemCaseR cfgOps name seed idx)
+  | "bounds" => some (genItemCaseR cfgBounds name seed idx)
+  | "all" => some (genItemCaseR cfgAll name seed idx)
+  | "dump" => some (genItemCaseR cfgDump name seed idx)
+  | "wild" => some (genItemCaseR cfgWild name seed idx)
+  | "strip" => some (genItemCaseR cfgStrip name seed idx)
   | "impl" => some (genImplCase name seed idx)
   | _ => none
 
@@ -51,6 +51,11 @@ def main (args : List String) : IO UInt32 := do
     let from_ := from_.toNat!
     let count := count.toNat!
     for i in [from_ : from_ + count] do
+      if fam == "meta15" then
+        for c in meta15Cases seed i do printCase c
+      else if fam == "metaDump" then
+        for c in metaDumpCases seed i do printCase c
+      else
       match family fam seed i with
       | some c => printCase c
       | none => IO.eprintln s!"unknown family {fam}"; return 2
